@@ -45,6 +45,25 @@ pub fn build_history(rng: &mut Rng, n: usize, pool: usize) -> Vec<Call> {
         for s in ["@", "@+1", "@*@", "1/0", "(", "2+", "w(-5)", "min(@,1)", "99!", "1.2.3", "@!", "abs(@)-@", "med(3,@,1)", "2^@"] {
             exprs.push((ev, s.to_string()));
         }
+        // long literals of different values - the printed forms of very large and very small results, as a
+        // caller that reads results back would send them - so that different threads convert different long
+        // texts at the same moment (seeded change C19-r10: a process-wide one-entry memo for literals of 32
+        // characters and more whose key and value are not published together)
+        if matches!(ev, Ev::F64 | Ev::Cpx | Ev::Num | Ev::Dec) {
+            let xs: [f64; 12] = [1e300, 1.2345678901234567e250, 5e-324, 2.2250738585072014e-308, f64::MAX, 1e100, 1.5e200, 7e-310, 3.3e-200, 9.87654321e180, 1e-100, 4.4e44];
+            for (k, x) in xs.iter().enumerate() {
+                let t = format!("{}", x);
+                if ev == Ev::Dec && (t.len() > 28 || t.contains("0000000000000000000000000000")) {
+                    continue;
+                }
+                let e = match (ev, k % 3) {
+                    (Ev::Cpx, 0) => format!("{}-{}i", t, format!("{}", xs[(k + 5) % xs.len()])),
+                    (_, 1) => format!("{}+@*0", t),
+                    _ => t,
+                };
+                exprs.push((ev, e));
+            }
+        }
         // aggregates whose outcome depends on the order in which the arguments are folded (an overflow
         // competing with a zero, a NaN among numbers, a failing argument among good ones): an evaluation
         // that visits its arguments in an order of its own (a hash set, a parallel fold) answers the same
@@ -446,13 +465,49 @@ impl Monitor for C16 {
         }
         // phase F: fresh processes in which nothing is evaluated before 8 threads start together on the
         // same run of calls: tables built lazily are built under contention (in phase C they already exist)
-        let concs = ctx.tier.pick(6usize, 60);
+        let concs = ctx.tier.pick(9usize, 90);
         if let Some(exe) = &exe {
             let dir = format!("{}/.build/tmp", crate::driver::root());
             let mut extra_base: HashMap<String, Outcome> = HashMap::new();
             for s in 0..concs {
                 let len = 10 + rng.below(30);
-                let calls: Vec<Call> = if s % 2 == 0 {
+                let hammer = s % 3 == 2;
+                let calls: Vec<Call> = if hammer {
+                    // a handful of distinct calls repeated a few hundred times, every thread starting at another
+                    // place of the list: the threads keep asking for *different* members of the same small family
+                    // at the same moment - long literals of different values, one function on neighbouring
+                    // arguments, a few calls of the history - which is what a process-wide memo with one or a few
+                    // entries needs to mix two callers up
+                    let ev = *rng.pick(&[Ev::F64, Ev::Cpx, Ev::Num, Ev::Dec, Ev::I64][..]);
+                    let group: Vec<Call> = match rng.below(3) {
+                        0 => {
+                            let xs: [f64; 8] = [1e300, 1.2345678901234567e250, 5e-324, 2.2250738585072014e-308, 1e100, 1.5e200, 7e-310, 9.87654321e180];
+                            let ev = if matches!(ev, Ev::Dec | Ev::I64) { Ev::F64 } else { ev };
+                            xs.iter().enumerate().map(|(k, x)| Call { ev, expr: if ev == Ev::Cpx { format!("{}-{}i", x, xs[(k + 3) % 8]) } else { format!("{}", x) }, ph: Val::zero(ev) }).collect()
+                        }
+                        1 => {
+                            let t = *rng.pick(&["@!", "w(@)", "2^@", "sqrt(@)", "exp(@/10)", "ln(@+1)", "@*@", "1/@", "abs(@)-@"][..]);
+                            (20..26i64)
+                                .map(|k| Call {
+                                    ev,
+                                    expr: t.to_string(),
+                                    ph: match ev {
+                                        Ev::F64 => Val::F(k as f64),
+                                        Ev::I64 => Val::I(k),
+                                        Ev::Dec => Val::D(crate::val::DecV { neg: false, mant: k as u128, scale: 0 }),
+                                        Ev::Cpx => Val::C(k as f64, 0.0),
+                                        Ev::Num => Val::NI(k),
+                                    },
+                                })
+                                .collect()
+                        }
+                        _ => {
+                            let start = rng.below(hist.len());
+                            (0..6).map(|j| hist[(start + j * 7) % hist.len()].clone()).collect()
+                        }
+                    };
+                    (0..1200).map(|j| group[j % group.len()].clone()).collect()
+                } else if s % 2 == 0 {
                     let start = rng.below(hist.len());
                     (0..len).map(|j| hist[(start + j) % hist.len()].clone()).collect()
                 } else {
@@ -486,7 +541,7 @@ impl Monitor for C16 {
                     ctx.stats.inc("fresh_process_spawn_failed");
                     continue;
                 }
-                let out = std::process::Command::new(exe).arg("fresh-conc").arg(&path).arg("8").output();
+                let out = std::process::Command::new(exe).arg("fresh-conc").arg(&path).arg("8").arg(if hammer { "rotate" } else { "together" }).output();
                 let _ = std::fs::remove_file(&path);
                 let parsed = match out {
                     Ok(o) if o.status.success() => crate::json::J::parse(String::from_utf8_lossy(&o.stdout).trim()).ok(),
